@@ -425,7 +425,7 @@ def nontrivial(case):
 def plan(tier):
     if tier == "quick":
         return [{"name": "rdf%d" % i, "n": 120, "depth": 2} for i in range(16)]
-    return [{"name": "rdf%d" % i, "n": 1000, "depth": 3} for i in range(16)]
+    return [{"name": "rdf%d" % i, "n": 4000, "depth": 3} for i in range(16)]
 
 
 def run(shard, seed, ctx):
